@@ -94,7 +94,7 @@ def classify(tree):
 def run(env):
     env.rule = ("well-formed programs (= parse raises nothing): all token strings of length <= L over a 14-symbol structural alphabet "
                 "(L=4 quick, 5 thorough), every element key and modifier in 13 syntactic contexts, grammar-generated programs (depth <= 4, all "
-                "structures, modifiers, literal kinds, X/x at every position); for each: (1) exact text of transpile() vs Model/Transpile.v, "
+                "structures, modifiers, literal kinds, X/x at every position), every code-page character in every identifier position (oracle); for each: (1) exact text of transpile() vs Model/Transpile.v, "
                 "(2) block skeleton of ast.parse(text) vs shape_program and py_wf vs compile() verdict, (3) oracle: compile(transpile(p)) in both "
                 "dictionary modes. Non-trivial = the emitted code contains at least one block; distinct by source.")
     t = env.tables
@@ -126,7 +126,17 @@ def run(env):
     odd_srcs = [pre + lit.replace("§", c) + post for c in odd
                 for lit in ("`a§b`", "`§`", "‛§z", "‛a§", "`a\\§b`")
                 for pre, post in (("", ""), ("3(", ")"), ("λ", ";"), ("3(λ⟨", "|1⟩;)"), ("v", ""), ("@f:1|", ";"))]
-    allsrc = list(dict.fromkeys(seeds + gen + in_ctx + exhaustive + odd_srcs))
+    # every code-page character in every position where program text becomes (part of) a Python identifier: function
+    # name at the definition and at the call, named parameter, loop variable, variable get / set -- alone and after a letter
+    cp = t["encoding"]["codepage"]
+    name_srcs = []
+    for ch in cp:
+        for nm in (ch, "a" + ch, ch + "b", "a" + ch + "b"):
+            name_srcs += [f"@{nm}:1|+;", f"3 @{nm};", f"@f:{nm}|+;", f"@f:1:{nm}|+;", f"3({nm}|n)", f"1 →{nm} ", f"←{nm} ", f"@{nm}:x|←x;2 @{nm};"]
+    if not env.thorough:
+        name_srcs = [x for k, x in enumerate(name_srcs) if (k + env.seed) % 2 == 0]
+    env.note("identifier_position_sources", len(name_srcs))
+    allsrc = list(dict.fromkeys(seeds + gen + in_ctx + exhaustive + odd_srcs + name_srcs))
     items = [(s, True) for s in allsrc] + [(s, False) for s in allsrc]
     res = V.pmap(impl_compiles, items, timeout=20)
     dist = {}
